@@ -50,7 +50,10 @@ func judgeC20(c CursorCase, o *CursorObs) (*Violation, bool) {
 	isCtx := err != nil && errors.Is(err, context.Canceled)
 	if !earlyTerminated(o) {
 		// clean run: nil iff nothing failed; otherwise every recorded failure is reported
-		if len(o.Fired) == 0 && o.Corrupted == 0 && err != nil {
+		if o.WorldBad && err == nil {
+			return violf("the query ran to completion over a file with a malformed block (row data ending in a truncated length prefix) and returned %d rows, but Err()=nil: the scan failure was not reported", len(o.Rows)), false
+		}
+		if len(o.Fired) == 0 && o.Corrupted == 0 && !o.WorldBad && err != nil {
 			return violf("clean run without any store failure finished with Err=%v", err), false
 		}
 		for _, f := range o.Fired {
@@ -58,7 +61,7 @@ func judgeC20(c CursorCase, o *CursorObs) (*Violation, bool) {
 				return violf("store failure %s fired during a query that ran to completion, but Err()=%v does not report it (fired: %v)", f, err, o.Fired), false
 			}
 		}
-		if err != nil && o.Corrupted == 0 && !errors.Is(err, errInjected) {
+		if err != nil && o.Corrupted == 0 && !o.WorldBad && !errors.Is(err, errInjected) {
 			return violf("Err()=%v does not wrap the store's error (errors.Is fails)", err), false
 		}
 		return nil, false
@@ -79,6 +82,11 @@ func judgeC20(c CursorCase, o *CursorObs) (*Violation, bool) {
 	if o.ClosedExplicitly && !o.Cancelled && !o.TermAt.IsZero() {
 		for i, f := range o.Fired {
 			if i < len(o.FiredAt) && o.TermAt.Sub(o.FiredAt[i]) > 50*time.Millisecond {
+				if (err == nil || !strings.Contains(err.Error(), f)) && o.TermAt.Sub(o.FiredAt[i]) > 120*time.Millisecond {
+					// more than 120 ms between the store call's failure and the Close:
+					// no scheduling allowance explains a failure that is not recorded yet
+					return violf("store failure %s fired %v before the deliberate Close, but after Close Err()=%v does not report it", f, o.TermAt.Sub(o.FiredAt[i]).Round(time.Millisecond), err), false
+				}
 				if err == nil || !strings.Contains(err.Error(), f) {
 					// the 50 ms are a scheduling allowance for the engine goroutine that
 					// records the failure: a timing verdict, confirmed by re-execution
@@ -88,7 +96,26 @@ func judgeC20(c CursorCase, o *CursorObs) (*Violation, bool) {
 		}
 	}
 	// racing cancel/Close: nil, recorded failures or the ctx error are all acceptable
-	if err != nil && !isCtx && o.Corrupted+o.CorruptedLate == 0 && !errors.Is(err, errInjected) {
+	// a scan that failed in the middle of a block well before a deliberate Close:
+	// the consumer had stopped reading for >= 300 ms, Stats shows the malformed
+	// block scanned to its end, so its failure was recorded before the terminal
+	// state was decided and Close must report it
+	if o.WorldBad && o.ClosedExplicitly && !o.Cancelled && err == nil {
+		stalled := 0
+		for _, st := range c.Steps {
+			if st.Op == "stall" {
+				stalled += st.Ms
+			}
+		}
+		if stalled >= 300 {
+			for _, e := range o.Stats.BlockStats {
+				if string(e.FilePointer) == o.BadBlock.File && e.BlockOffset == o.BadBlock.Off && !e.BloomFilterSkipped && e.RowsProcessed >= int64(o.BadRows) {
+					return violf("the malformed block was scanned to its end (Stats: %d rows processed) while the consumer had stopped reading for %d ms before its deliberate Close, but Err()=nil after Close: the scan failure recorded before Close was lost", e.RowsProcessed, stalled), true
+				}
+			}
+		}
+	}
+	if err != nil && !isCtx && o.Corrupted+o.CorruptedLate == 0 && !o.WorldBad && !errors.Is(err, errInjected) {
 		return violf("terminal Err()=%v is neither nil, a recorded store failure, nor the context error", err), false
 	}
 	return nil, false
@@ -116,6 +143,9 @@ func runCursorProperty(judge func(CursorCase, *CursorObs, *Trace, *bs.BloomSearc
 			return o, v, timing
 		}
 		o, v, timing := once()
+		for i := 1; i < c.Repeat && v == nil; i++ {
+			o, v, timing = once()
+		}
 		if v != nil && timing {
 			for i := 0; i < 2; i++ {
 				if _, v2, _ := once(); v2 == nil {
@@ -141,6 +171,9 @@ func runCursorProperty(judge func(CursorCase, *CursorObs, *Trace, *bs.BloomSearc
 		if c.IterGate >= 0 {
 			Ev.Class("gated-metastore-iteration")
 		}
+		if o.WorldBad {
+			Ev.Class("world-with-malformed-block(mid-scan failure)")
+		}
 		if cursorNonTrivial(c, o) {
 			Ev.NonTrivial(jsonKey(c))
 			if Ev.WantSample() {
@@ -152,7 +185,7 @@ func runCursorProperty(judge func(CursorCase, *CursorObs, *Trace, *bs.BloomSearc
 }
 
 func TestC20(t *testing.T) {
-	Ev.Rule = "case = dataset (1-6 files x 1-6 blocks x 1/10/63/70/200 rows: several 64-row batches per block in the larger ones), MaxQueryConcurrency 1..1000, query kind (match-all / token / one file / one block / nothing), engine never started / started / stopped, optional read latency, 0-3 store failures (OpenFile / Read / Seek / iterator start / iterator yield at generated positions, each with its own sentinel), optional ctx-honouring gate inside the MetaStore iteration, and a consumer script (drain; Next xk then Close or cancel; Close or cancel from another goroutine after 0-10 ms; stall; Close before the first row; 2-4 goroutines calling Close at the same moment mid-stream with 0.5-5 ms read latency). Oracle: Next returns false (20 s harness limit, 5 s after Close/cancel) and stays false; every Close returns nil, three concurrent late Closes do not change Err; clean runs: Err nil iff no failure fired, else mentions every fired sentinel and wraps the store error; cancel finished before the final Next began (no Close) => errors.Is(Err, context.Canceled); deliberate Close => never the ctx error; racing cases accept nil / recorded failures / ctx error. Non-trivial: termination landed mid-stream (0 < rows < total) or a failure fired; distinct by case."
+	Ev.Rule = "case = dataset (1-6 files x 1-6 blocks x 1/10/63/70/200 rows: several 64-row batches per block in the larger ones), MaxQueryConcurrency 1..1000, query kind (match-all / token / one file / one block / nothing), engine never started / started / stopped, optional read latency, 0-3 store failures (OpenFile / Read / Seek / iterator start / iterator yield at generated positions, each with its own sentinel), optional ctx-honouring gate inside the MetaStore iteration, and a consumer script (drain; Next xk then Close or cancel; Close or cancel from another goroutine after 0-10 ms; stall; Close before the first row; a world with a malformed block whose scan fails after its rows were matched (drained; or the consumer stops reading for 300-400 ms and then closes; or cancels); a slow walk through buffered rows of a finished pipeline while another goroutine calls Close 150-220 ms in (repeated 12 times); 2-4 goroutines calling Close at the same moment mid-stream with 0.5-5 ms read latency). Oracle: Next returns false (20 s harness limit, 5 s after Close/cancel) and stays false; every Close returns nil, three concurrent late Closes do not change Err; clean runs: Err nil iff no failure fired, else mentions every fired sentinel and wraps the store error; cancel finished before the final Next began (no Close) => errors.Is(Err, context.Canceled); deliberate Close => never the ctx error; racing cases accept nil / recorded failures / ctx error. Non-trivial: termination landed mid-stream (0 < rows < total) or a failure fired; distinct by case."
 	Ev.Assumptions = []string{"failures that fire after the query was terminated may be dropped (documented as teardown noise)"}
 	runChecks(t, "scripts", 400, 10000, genCursorCase(true), runCursorProperty(func(c CursorCase, o *CursorObs, _ *Trace, _ *bs.BloomSearchEngine) (*Violation, bool) {
 		return judgeC20(c, o)
@@ -348,7 +381,7 @@ func judgeC23Faults(c CursorCase, o *CursorObs) *Violation {
 				return violf("query ran to completion (faults fired: %v) but Stats lists %d of the %d blocks of file %s (must be all or none)", o.Fired, n, perFile[f], f)
 			}
 		}
-		if len(o.Fired) == 0 && o.Corrupted == 0 && st.RowsMatched != int64(len(o.Rows)) {
+		if len(o.Fired) == 0 && o.Corrupted == 0 && !o.WorldBad && st.RowsMatched != int64(len(o.Rows)) {
 			return violf("clean completion: RowsMatched=%d, rows returned=%d", st.RowsMatched, len(o.Rows))
 		}
 	}
